@@ -12,6 +12,7 @@ import (
 	"math/rand/v2"
 	"os"
 	"runtime"
+	"strings"
 	"sync"
 	"time"
 
@@ -435,6 +436,7 @@ func concCase(seed uint64, idx int, flush bool) *CaseSpec {
 			case <-done:
 				return true
 			case <-time.After(wd(d)):
+				noteIfWedged()
 				return false
 			}
 		}
@@ -471,12 +473,22 @@ func concCase(seed uint64, idx int, flush bool) *CaseSpec {
 		} else {
 			t.Add("conc.result 1 %s %s", S(fmt.Sprintf("sessions=%d rounds=%d max=%s", n, rounds, encElec(maxID))), B(flush))
 		}
-		// RIB invariants on the final state (counters = referrers, closure unless flushed)
-		if err := ObsRIB(t, h.S.VerifRIB()); err != nil {
-			return t, err
+		// RIB invariants on the final state (counters = referrers, closure unless flushed) — unless
+		// the server is wedged: reading its state needs the very locks that are stuck, and the
+		// finding has been reported already
+		wedged := false
+		for _, p := range problems {
+			if strings.Contains(p, "hang") || strings.Contains(p, "deadlock") {
+				wedged = true
+			}
 		}
-		for c := range h.sess {
-			h.Close(c, "eof")
+		if !wedged {
+			if err := ObsRIB(t, h.S.VerifRIB()); err != nil {
+				return t, err
+			}
+			for c := range h.sess {
+				h.Close(c, "eof")
+			}
 		}
 		t.Add("end")
 		return t, nil
